@@ -1,7 +1,7 @@
 """Per-property check definitions (see DESIGN.md section 4)."""
 import os, json
 import vlib
-from vlib import (model_check, gen_cases, build_driver, run_driver, validate_trace, report_mismatches, finish, Infra)
+from vlib import (tlaps, model_check, gen_cases, build_driver, run_driver, validate_trace, report_mismatches, finish, Infra)
 
 CHECKS = {}
 
@@ -76,6 +76,7 @@ def c04(ctx):
 
 @check("C05")
 def c05(ctx):
+    tlaps(ctx, "VerifyPredProofs.tla")      # unbounded: Accept(default) => Accept(zip); the modes differ only on small-order A or R
     verify_family(ctx, ["MCVerify_quick.cfg"] if not ctx.thorough else ["MCVerify_quick.cfg", "MCVerify_thorough.cfg"])
     batch_extra(ctx)      # ZIP-215 batches with small-order entries, alone and next to other failures (fallback path)
     finish(ctx, VERIFY_RULE, ASSUME_COMMON)
@@ -135,6 +136,8 @@ def heap_class(ev):
 def c17(ctx):
     import glob
     model_check(ctx, "MCBosCoster.tla", "MCBosCoster_quick.cfg" if not ctx.thorough else "MCBosCoster_thorough.cfg", timeout=3000)
+    if ctx.thorough:
+        model_check(ctx, "MCBosCoster.tla", "MCBosCoster_live.cfg")      # liveness: every run terminates (weak fairness)
     model_check(ctx, "MCBatch.tla", "MCBatch_quick.cfg")
     drv = build_driver(ctx)
     # (a) Bos-Coster steps of the real code, through VerifyBatch and by direct calls
@@ -193,6 +196,7 @@ SIGN_ASSUME = ASSUME_COMMON + ["the two base-point multiples of a sign event ([a
 def c02(ctx):
     model_check(ctx, "MCOptions.tla", "MCOptions.cfg")
     sign_family(ctx, list(vlib.CONFIGS) if ctx.thorough else ("default", "force32bit"))
+    curve_family(ctx)      # audit-iso: the library's public keys and R values re-derived bit by bit in TLA+ ([a]B, [r]B)
     finish(ctx, "seeds (all-zero, all-ones, random) x variant/context pairs (pure; ctx 1,2,16,254,255; ph 0,1,16,255) x message lengths (0,1,111,112,127,128,129,300; thorough: 4096, 1 MiB) "
            "signed through every entry point twice with a counting entropy reader; each event validated by TLC against SignSpec.tla (clamp, reductions mod L, S, dom2 bytes, determinism, "
            "entropy untouched, equality with crypto/ed25519); class = (variant, context length, message length, seed kind)", SIGN_ASSUME)
@@ -361,6 +365,10 @@ NUM_ASSUME = ASSUME_COMMON + ["sampling oracle: the exact residue identity is ch
 
 @check("C18")
 def c18(ctx):
+    model_check(ctx, "FieldLimbs.tla", "FieldLimbs.cfg")          # carry discipline, exhaustive at 3 limbs x 3 bits
+    ok, _ = model_check(ctx, "FieldLimbsNeg.tla", "FieldLimbsNeg.cfg", expect_ok=False)   # control: Neg with bias p (not 2p) underflows
+    if ok:
+        raise Infra("model control failed: FieldLimbs accepts a p-biased negation")
     model_check(ctx, "MCDecode.tla", "MCDecode.cfg")
     num_family(ctx, NUM_CONFIGS_THOROUGH if ctx.thorough else NUM_CONFIGS_QUICK)
     finish(ctx, "field operations of both limb layouts (5x51 in the default build, 10x25.5 with force32bit) driven on reduced elements from limb-boundary byte patterns (each limb 0 / 1 / mask-19 / mask-1 / mask / random, "
@@ -370,6 +378,7 @@ def c18(ctx):
 
 @check("C19")
 def c19(ctx):
+    model_check(ctx, "MCBarrett.tla", "MCBarrett.cfg" if not ctx.thorough else "MCBarrett_all.cfg")   # two conditional subtractions suffice
     model_check(ctx, "MCRecode.tla", "MCRecode.cfg")
     num_family(ctx, NUM_CONFIGS_THOROUGH if ctx.thorough else NUM_CONFIGS_QUICK)
     finish(ctx, "scalar layer of both layouts: Expand of 0..64-byte strings (kL+delta for 14 quotient sizes, 2^252/253/255/256/257/264/504/511/512 +-, qL and qL-1, random), ExpandRaw, Add/Mul on edge and random pairs of [0,L)^2, "
